@@ -152,7 +152,7 @@ theorem C13.assign_IS {wd : Ty} (hty : C13.TyOk wd) {e r : WDom.Env} {x : Var} {
         · simp at hv
     obtain ⟨c, hc⟩ := hmem
     have hvw : wd v = wd x := hex (v, c) hc
-    exact C13.wdom_set_inv' wd e x hx _ hI.1 hI.2 (hvw ▸ get_good hI.2 v)
+    exact C13.wdom_set_inv_typed wd e x hx _ hI.1 hI.2 (hvw ▸ get_good hI.2 v)
   | none =>
     rw [hv] at h; simp only at h
     cases hr : e.evalExpr ex (wd x) with
@@ -168,7 +168,7 @@ theorem C13.assign_IS {wd : Ty} (hty : C13.TyOk wd) {e r : WDom.Env} {x : Var} {
           rw [hc] at hr; simp only at hr
           exact C13.evalLoop_good (hty x).1 (hty x).2 e ex.terms r0 ri
             (fun p hp => hex p hp ▸ get_good hI.2 p.1) (ofZ_good (hty x).1 (hty x).2 hc) hr
-      exact C13.wdom_set_inv' wd e x hx ri hI.1 hI.2 g
+      exact C13.wdom_set_inv_typed wd e x hx ri hI.1 hI.2 g
 
 theorem C13.WStep.preserves {wd : Ty} (hty : C13.TyOk wd) {st : Step WDom.Env (Var → Nat)} (h : C13.WStep wd st) :
     Step.Preserves (C13.IS wd) st := by
@@ -192,7 +192,7 @@ theorem C13.WStep.preserves {wd : Ty} (hty : C13.TyOk wd) {st : Step WDom.Env (V
         | none => rw [hq] at hv; cases hv
         | some xi =>
           rw [hq] at hv; injection hv with hv; subst hv
-          exact C13.wdom_set_inv' wd a x hx xi hI.1 hI.2
+          exact C13.wdom_set_inv_typed wd a x hx xi hI.1 hI.2
             (C13.wdom_apply_arith_good (wd x) (hty x).1 (hty x).2 op _ _ xi (hy ▸ get_good hI.2 y)
               (hz ▸ get_good hI.2 z) hq)
     | arithCst op x y k hx hy =>
@@ -210,7 +210,7 @@ theorem C13.WStep.preserves {wd : Ty} (hty : C13.TyOk wd) {st : Step WDom.Env (V
           | none => rw [hq] at hv; cases hv
           | some xi =>
             rw [hq] at hv; injection hv with hv; subst hv
-            exact C13.wdom_set_inv' wd a x hx xi hI.1 hI.2
+            exact C13.wdom_set_inv_typed wd a x hx xi hI.1 hI.2
               (C13.wdom_apply_arith_good (wd x) (hty x).1 (hty x).2 op _ _ xi (hy ▸ get_good hI.2 y)
                 (ofZ_good (hty x).1 (hty x).2 hk) hq)
     | forget x hx =>
